@@ -427,7 +427,26 @@ func genFlags(t *rapid.T, d *model.Def) *Value {
 	base := d.EffectiveBase()
 	signed := model.IsSignedInt(base)
 	var bits uint64
-	switch intn(t, "flagsKind", 5) {
+	kinds := 5
+	var union uint64
+	composite := false
+	for _, ev := range d.Values {
+		b := enumUint(ev)
+		union |= b
+		if b&(b-1) != 0 {
+			composite = true
+		}
+	}
+	if composite {
+		kinds = 8 // a type with a member of several bits: more often a value made of some of the bits any member has
+	}
+	switch intn(t, "flagsKind", kinds) {
+	case 5, 6, 7:
+		for i := uint(0); i < 64; i++ {
+			if union&(1<<i) != 0 && intn(t, "maskBitOn", 2) == 1 {
+				bits |= 1 << i
+			}
+		}
 	case 0:
 		bits = 0
 	case 1: // all declared
